@@ -25,9 +25,10 @@ N == Len(TraceLog)
 
 VARIABLES l,    \* position in TraceLog
           wc,   \* 1: the placement algorithm of the run is work-conserving (round-robin, greedy); 0: partition
+          pcap, \* capacity of the CP's ToCUs port in this run
           held, \* Seq over CUs: map ids the dispatchers still account for (sent, completion not yet consumed)
           ff    \* <<conforming, examined>>: MapWG lines whose offsets are the first-fit choice of CUResource.tla
-tvars == <<lvars, l, wc, held, ff>>
+tvars == <<lvars, l, wc, pcap, held, ff>>
 
 ASSUME HWInit
 
@@ -37,9 +38,9 @@ Is(e) == l <= N /\ Ev.e = e /\ l' = l + 1
 CfgOf(cs) == [i \in 1..Len(cs) |-> [slots |-> cs[i].slots, sregs |-> cs[i].sregs, vregs |-> cs[i].vregs, lds |-> cs[i].lds]]
 EmptyCfg == <<>>
 
-TInit == L_Init(EmptyCfg) /\ l = 1 /\ wc = 1 /\ held = <<>> /\ ff = <<0, 0>>
+TInit == L_Init(EmptyCfg) /\ l = 1 /\ wc = 1 /\ pcap = 4096 /\ held = <<>> /\ ff = <<0, 0>>
 
-TReset == Is("Reset") /\ L_Reset(CfgOf(Ev.cus)) /\ wc' = Ev.wc /\ held' = [i \in 1..Len(Ev.cus) |-> {}] /\ UNCHANGED ff
+TReset == Is("Reset") /\ L_Reset(CfgOf(Ev.cus)) /\ wc' = Ev.wc /\ pcap' = Ev.pcap /\ held' = [i \in 1..Len(Ev.cus) |-> {}] /\ UNCHANGED ff
 
 DescOf(ev) ==
   LET ids == {ev.wgs[i][1] : i \in 1..Len(ev.wgs)} IN
@@ -75,37 +76,38 @@ FirstFit(ev) ==
   /\ a.ok /\ \A i \in 1..Len(locs) : a.offs[i] * HGS = locs[i].s
   /\ lo >= 0 /\ \A i \in 1..Len(locs) : lo * HGL = locs[i].l
   /\ VFits(locs, 1, Units(K.v, HGV), vms)
-Examinable(ev) == ev.c \in 1..NCU /\ ev.k \in DOMAIN kern /\ Len(ev.locs) > 0 /\ Limited(ev.c)
+\* (with a small ToCUs port other dispatchers may hold reservations for parked work-groups that no event shows)
+Examinable(ev) == pcap >= 4096 /\ ev.c \in 1..NCU /\ ev.k \in DOMAIN kern /\ Len(ev.locs) > 0 /\ Limited(ev.c)
                   /\ \A i \in 1..Len(ev.locs) : ev.locs[i][1] \in 0..(Len(cfg[ev.c].slots) - 1)
 FFNext(ev) == IF ~Examinable(ev) THEN ff
               ELSE <<ff[1] + (IF FirstFit(ev) THEN 1 ELSE 0), ff[2] + 1>>
 HeldAdd(ev) == IF ev.c \in 1..NCU THEN [held EXCEPT ![ev.c] = @ \cup {ev.m}] ELSE held
 HeldDrop(ids) == [c \in 1..Len(held) |-> held[c] \ ids]
 
-TLaunch  == Is("Launch") /\ L_Launch(Ev.k, DescOf(Ev)) /\ UNCHANGED <<wc, held, ff>>
-TStart   == Is("Start") /\ L_Start(Ev.k) /\ UNCHANGED <<wc, held, ff>>
+TLaunch  == Is("Launch") /\ L_Launch(Ev.k, DescOf(Ev)) /\ UNCHANGED <<wc, pcap, held, ff>>
+TStart   == Is("Start") /\ L_Start(Ev.k) /\ UNCHANGED <<wc, pcap, held, ff>>
 TMap     == /\ Is("MapWG") /\ L_Map(Ev.m, Ev.k, Ev.w, Ev.c, LocsOf(Ev), Ev.pid, IF Ev.al = 1 THEN {} ELSE {"map_shape"})
-            /\ ff' = FFNext(Ev) /\ held' = HeldAdd(Ev) /\ UNCHANGED wc
-TTakeMap == Is("TakeMap") /\ L_TakeMap(Ev.m) /\ UNCHANGED <<wc, held, ff>>
-TComplete == Is("Complete") /\ L_Complete(Ev.mid, Ev.c, Range(Ev.ids)) /\ UNCHANGED <<wc, held, ff>>
-TConsume == Is("Consume") /\ L_Consume(Ev.mid) /\ held' = HeldDrop(Head(cuIn).ids) /\ UNCHANGED <<wc, ff>>
+            /\ ff' = FFNext(Ev) /\ held' = HeldAdd(Ev) /\ UNCHANGED <<wc, pcap>>
+TTakeMap == Is("TakeMap") /\ L_TakeMap(Ev.m) /\ UNCHANGED <<wc, pcap, held, ff>>
+TComplete == Is("Complete") /\ L_Complete(Ev.mid, Ev.c, Range(Ev.ids)) /\ UNCHANGED <<wc, pcap, held, ff>>
+TConsume == Is("Consume") /\ L_Consume(Ev.mid) /\ held' = HeldDrop(Head(cuIn).ids) /\ UNCHANGED <<wc, pcap, ff>>
 \* a dispatcher took its share out of the head completion message and left the rest in the port
 TStrip   == /\ Is("Strip") /\ cuIn # <<>> /\ Head(cuIn).mid = Ev.mid /\ L_Strip(Range(Ev.ids))
-            /\ held' = HeldDrop(Range(Ev.ids)) /\ UNCHANGED <<wc, ff>>
-TRsp     == Is("Rsp") /\ L_Rsp(Ev.k) /\ UNCHANGED <<wc, held, ff>>
-TTakeRsp == Is("TakeRsp") /\ L_TakeRsp(Ev.k) /\ UNCHANGED <<wc, held, ff>>
+            /\ held' = HeldDrop(Range(Ev.ids)) /\ UNCHANGED <<wc, pcap, ff>>
+TRsp     == Is("Rsp") /\ L_Rsp(Ev.k) /\ UNCHANGED <<wc, pcap, held, ff>>
+TTakeRsp == Is("TakeRsp") /\ L_TakeRsp(Ev.k) /\ UNCHANGED <<wc, pcap, held, ff>>
 
 \* The CP sleeps (no event pending).  Under a work-conserving placement it may not leave a work-group
 \* waiting that an idle CU could hold (resources are all returned when a work-group finishes), unless its
 \* ToCUs port is full; under any placement it may not sleep with a work-group waiting while nothing at all
 \* is resident or in flight (nothing would ever wake it).
 TIdle == /\ Is("Idle")
-         /\ Len(toCU) < 4096 => (IF wc = 1 THEN ~Starved ELSE ~Stuck)
-         /\ UNCHANGED <<lvars, wc, held, ff>>
+         /\ Len(toCU) < pcap => (IF wc = 1 THEN ~Starved ELSE ~Stuck)
+         /\ UNCHANGED <<lvars, wc, pcap, held, ff>>
 
 \* The harness drained every port, every CU reported everything, no event is pending: every launch
 \* must have been answered.
-TQuiesce == Is("Quiesce") /\ PortsQuiet /\ AllAnswered /\ UNCHANGED <<lvars, wc, held, ff>>
+TQuiesce == Is("Quiesce") /\ PortsQuiet /\ AllAnswered /\ UNCHANGED <<lvars, wc, pcap, held, ff>>
 
 TNext == TReset \/ TLaunch \/ TStart \/ TMap \/ TTakeMap \/ TComplete \/ TConsume \/ TStrip \/ TRsp \/ TTakeRsp
          \/ TIdle \/ TQuiesce
